@@ -566,12 +566,39 @@ class BPAdapter:
         return kw
 
     def build(self, cls, mi: MI, tree, route: str = "kwargs"):
+        if route == "lazy":
+            return self.fill_lazily(cls(), mi, tree, 1)
         kw = self.kwargs(cls, mi, tree)
         if route == "kwargs":
             return cls(**kw)
         m = cls()
         for k, v in kw.items():
             setattr(m, k, v)
+        return m
+
+    def fill_lazily(self, m, mi: MI, tree, lazy_depth: int):
+        """Route "lazy": never assign a container or a (non-empty) plain sub-message; mutate what attribute
+        access lazily creates instead - m.items.append(x), m.mapping[k] = v, m.child.field = v (one level of
+        lazily created sub-messages; their own sub-messages are built and assigned)."""
+        info = BPInfo.of(type(m))
+        for fi in mi.fields:
+            if fi.name not in tree:
+                continue
+            v = tree[fi.name]
+            name = info.pyname(fi)
+            ec = info.elem_class(fi)
+            if fi.card == "repeated":
+                lst = getattr(m, name)
+                for x in v:
+                    lst.append(self.single(ec, fi, x, False))
+            elif fi.card == "map":
+                mp = getattr(m, name)
+                for k, x in (v.items() if isinstance(v, dict) else v):
+                    mp[k] = self.single(ec, fi.val, x, False)
+            elif fi.card == "single" and not fi.oneof and fi.type == "message" and fi.wkt is None and v and lazy_depth > 0:
+                self.fill_lazily(getattr(m, name), self.schema.msg(fi.msg), v, lazy_depth - 1)
+            else:
+                setattr(m, name, self.single(ec, fi, v, fi.card == "single" and not fi.oneof))
         return m
 
 
@@ -581,7 +608,7 @@ def _bp_sow(m) -> bool:
     return betterproto.serialized_on_wire(m)
 
 
-def _bp_snap_single(schema, info, fi: FI, v):
+def _bp_snap_single(schema, info, fi: FI, v, presence: str = "sow"):
     if fi.wkt == "timestamp":
         return datetime_to_us(v) if isinstance(v, datetime) else ("badtype", type(v).__name__)
     if fi.wkt == "duration":
@@ -591,12 +618,16 @@ def _bp_snap_single(schema, info, fi: FI, v):
     if fi.type == "message":
         import betterproto
 
-        return snap_bp(schema, schema.msg(fi.msg), v) if isinstance(v, betterproto.Message) else _bad(v)
+        return snap_bp(schema, schema.msg(fi.msg), v, presence) if isinstance(v, betterproto.Message) else _bad(v)
     return v
 
 
-def snap_bp(schema: Schema, mi: MI, m) -> Dict[str, Any]:
-    """Tree of a betterproto message through public observers only."""
+def snap_bp(schema: Schema, mi: MI, m, presence: str = "sow") -> Dict[str, Any]:
+    """Tree of a betterproto message through public observers only.
+
+    presence="sow": a plain sub-message is present iff serialized_on_wire reports it;
+    presence="sow_or_content": ... or it encodes to something (for messages filled in place through lazily
+    created members, whose presence flag is not what the round-trip properties are about)."""
     import betterproto
 
     info = BPInfo.of(type(m))
@@ -608,26 +639,26 @@ def snap_bp(schema: Schema, mi: MI, m) -> Dict[str, Any]:
             if selected.get(fi.oneof) != name:
                 continue
             v = getattr(m, name)
-            out[fi.name] = _bp_snap_single(schema, info, fi, v)
+            out[fi.name] = _bp_snap_single(schema, info, fi, v, presence)
             continue
         v = getattr(m, name)
         if fi.card == "repeated":
-            out[fi.name] = [_bp_snap_single(schema, info, fi, x) for x in v] if isinstance(v, list) else _bad(v)
+            out[fi.name] = [_bp_snap_single(schema, info, fi, x, presence) for x in v] if isinstance(v, list) else _bad(v)
         elif fi.card == "map":
-            out[fi.name] = {k: _bp_snap_single(schema, info, fi.val, x) for k, x in v.items()} if isinstance(v, dict) else _bad(v)
+            out[fi.name] = {k: _bp_snap_single(schema, info, fi.val, x, presence) for k, x in v.items()} if isinstance(v, dict) else _bad(v)
         elif fi.card == "optional" or fi.wkt == "wrapper":
             if v is None:
                 continue
-            out[fi.name] = _bp_snap_single(schema, info, fi, v)
+            out[fi.name] = _bp_snap_single(schema, info, fi, v, presence)
         elif fi.type == "message" and fi.wkt is None:
             if not isinstance(v, betterproto.Message):
                 out[fi.name] = _bad(v)
                 continue
-            if not betterproto.serialized_on_wire(v):
+            if not betterproto.serialized_on_wire(v) and not (presence == "sow_or_content" and bytes(v) != b""):
                 continue
-            out[fi.name] = _bp_snap_single(schema, info, fi, v)
+            out[fi.name] = _bp_snap_single(schema, info, fi, v, presence)
         else:
-            out[fi.name] = _bp_snap_single(schema, info, fi, v)
+            out[fi.name] = _bp_snap_single(schema, info, fi, v, presence)
     return out
 
 
